@@ -9,7 +9,7 @@ from . import C14
 
 ID = 'C03'
 PROFILES = ['dev']
-BOUNDS = {'program matrix': 'every statement / expression form (40 one-operand, 38 two-operand) with X of every kind {undefined name, mysterious, null, boolean, number, string, array, empty array, function} and the other operand of kind {number, string, array, null}: 1728 programs parsed by the real parser, all literals symbolic, executed by the real interpreter and by the reference interpreter; written lines / outcome / error class compared; forms the reference leaves undefined (cut / join / cast statements, array == array, string indexing) are kernel-level only',
+BOUNDS = {'program matrix': 'every statement / expression form (40 one-operand, 38 two-operand) with X of every kind {undefined name, mysterious, null, boolean, number, string, array, empty array, function} and the other operand of kind {number, string, array, null}: 1728 programs parsed by the real parser, all literals symbolic, executed by the real interpreter and by the reference interpreter; written lines and outcome (success / runtime error) compared; forms the reference leaves undefined (cut / join / cast statements, array == array, string indexing) are kernel-level only',
           'operators': 'all 13 binary operators x all 36 kind pairs, payloads symbolic (all doubles, all strings, both booleans)',
           'arrays': 'sequence length 0..=2, scalar elements, dictionary 0..=1 entries (array == array is checked by C14 laws, not by the table)',
           'list operands': 'rhs lists of 2 and 3 thunks (arrays <= 1 element without dictionary in quick, <= 2 with dictionary in thorough), each yielding a lazily symbolic value or failing; compared with the nested single-operator evaluation (same real code), including which thunks ran',
@@ -17,7 +17,7 @@ BOUNDS = {'program matrix': 'every statement / expression form (40 one-operand, 
 OUTSIDE = ['digits of f64 rendering and of number parsing (std; uninterpreted fmt_f64 / parse)', 'string repetition result as text (uninterpreted str_repeat(s, n))',
            'nesting depth > 1 of expressions (the evaluator is compositional: visit_binary_expression only combines child values)', 'statement position and variables (C04/C05)']
 ASSUMPTIONS = C14.ASSUMPTIONS + ['reference coercion table = Rockstar rules as fixed by this repository at the pinned commit and its tests (tests/operators.rs, equality.rs, math.rs); it is validated per run against the native build on the operand table']
-RULE = 'state = feasible path end over (operator, kind pair, payload branches); each path end compares the real result with the reference table by z3 (kinds, payload terms, error class, evaluated thunks)'
+RULE = 'state = feasible path end over (operator, kind pair, payload branches); each path end compares the real result with the reference table by z3 (kinds, payload terms, Ok / Err, evaluated thunks)'
 
 U, N, B, NUM, S, A = range(6)
 
